@@ -1,4 +1,5 @@
 import Asts.Proofs.L1_c_C12
+import Asts.Gen.Crd
 
 /-! # C15 (reconcile part) — no admitted object can crash the controller
 
@@ -67,5 +68,27 @@ example :
        { id := 1, ord := 2147483647, phase := .pending, ready := false, terminating := false, rev := "a", idOk := true,
          stOk := true }] []).2
     = .panic "nil firstUnhealthyPod.Name (stateful_set_control.go:403)" := by decide
+
+/-! ### The admission facts, read off the shipped CRD (`lean/Asts/Gen/Crd.lean` is regenerated from
+    `/repo/manifests/crd.v1.yaml` on every check run, so these are re-checked against the file as it is now). -/
+
+/-- every served version of the CRD requires `spec.replicas`, types it as an integer and bounds it below by 0 -/
+theorem crd_replicas_required_nonneg :
+    Asts.Gen.crdVersions.all (fun v =>
+      v.2.2.1.contains "replicas" &&
+      v.2.2.2.1.any (fun f => f.1 == "replicas" && f.2.1 == "integer" && f.2.2.1 == some 0)) = true := by decide
+
+/-- every served version defaults `spec.revisionHistoryLimit` (so `*set.Spec.RevisionHistoryLimit` is never nil for an object
+    the API server stored) and bounds it below by 0 -/
+theorem crd_history_limit_defaulted_nonneg :
+    Asts.Gen.crdVersions.all (fun v =>
+      v.2.2.2.1.any (fun f => f.1 == "revisionHistoryLimit" && f.2.2.1 == some 0 &&
+        (match f.2.2.2.1 with | some d => decide (0 ≤ d) | none => false))) = true := by decide
+
+/-- the schema keeps `updateStrategy`, `selector`, `template` and `status` opaque: nothing about partitions, strategy or
+    policy strings is validated — which is why the theorems above quantify over all of them -/
+theorem crd_update_strategy_opaque :
+    Asts.Gen.crdVersions.all (fun v =>
+      v.2.2.2.1.any (fun f => f.1 == "updateStrategy" && f.2.2.2.2 == true) && v.2.2.2.2 == true) = true := by decide
 
 end Asts.C15
